@@ -18,9 +18,11 @@ package main
 import (
 	"archive/zip"
 	"bytes"
+	"crypto/sha256"
 	"encoding/hex"
 	"fmt"
 	"io"
+	"math/rand"
 	"os"
 	"path/filepath"
 	"sort"
@@ -72,7 +74,7 @@ func (c20report) Run(instanceID string, vs parser.Scope, is map[string]interface
 	}
 	parts := make([]string, len(args))
 	for i, a := range args {
-		parts[i] = fmt.Sprint(a)
+		parts[i] = c20digest(fmt.Sprint(a))
 	}
 	p.reports = append(p.reports, strings.Join(parts, "="))
 	if !p.probed {
@@ -82,6 +84,14 @@ func (c20report) Run(instanceID string, vs parser.Scope, is map[string]interface
 	return nil, nil
 }
 func (c20report) DocString() (string, error) { return "verif harness: report a value", nil }
+
+// c20digest: long values are compared by length and SHA-256 (on the Go side only).
+func c20digest(v string) string {
+	if len(v) <= 256 {
+		return v
+	}
+	return fmt.Sprintf("sha256:%x len=%d", sha256.Sum256([]byte(v)), len(v))
+}
 
 // c20fdpos: the file offset of the single descriptor this process holds on path.
 func c20fdpos(path string) (int64, bool) {
@@ -119,6 +129,30 @@ type c20tree struct {
 	files   map[string]string // relative slash path -> content
 	expects []string          // reports the entry program must make
 	ka, kb  int
+	big     int    // > 0: tree "big-<size>-<kind>": entry file, one module and one data file of exactly this size
+	bigFill string // text the big entry file is padded with
+}
+
+// c20filler: n bytes of text that can stand inside an ECAL raw string; "rep" compresses to
+// almost nothing, "rnd" (seeded PRNG over 64 characters) hardly at all.
+func c20filler(n int, kind string, seed int64) string {
+	if n <= 0 {
+		return ""
+	}
+	b := make([]byte, n)
+	if kind == "rep" {
+		pat := "0123456789abcdef ####ECALSRC#### "
+		for i := range b {
+			b[i] = pat[i%len(pat)]
+		}
+		return string(b)
+	}
+	const alpha = "ABCDEFGHIJKLMNOPQRSTUVWXYZabcdefghijklmnopqrstuvwxyz0123456789#+"
+	r := rand.New(rand.NewSource(seed))
+	for i := range b {
+		b[i] = alpha[r.Intn(len(alpha))]
+	}
+	return string(b)
 }
 
 const c20payloadA = "A-payload #### \\n####ECALSRC#### {{x}} 'quoted' end"
@@ -147,6 +181,33 @@ func c20mktree(root, name string, marker string) (*c20tree, error) {
 		t.files["lib/\n"] = "#"
 	}
 	t.expects = []string{"a.v=" + c20payloadA, "b.v=" + c20payloadB, "b.f=13"}
+	if strings.HasPrefix(name, "big-") {
+		// files larger than one decompression window (32 KiB): as imported module, as data file
+		// (true binary content; checked in the produced archive) and - in c20entry - as entry file
+		f := strings.Split(name, "-")
+		size, err := strconv.Atoi(f[1])
+		if err != nil || len(f) != 3 || size < 1024 {
+			return nil, fmt.Errorf("bad tree name %q", name)
+		}
+		kind := f[2]
+		t.big = size
+		head, tail := "v := r\"", "\"\nk := 5\n"
+		fill := c20filler(size-len(head)-len(tail), kind, int64(size))
+		t.files["big/mod.ecal"] = head + fill + tail
+		t.expects = append(t.expects, "big.v="+c20digest(fill), "big.k=5")
+		data := make([]byte, size)
+		if kind == "rep" {
+			for i := range data {
+				data[i] = byte(i / 4096)
+			}
+		} else {
+			rand.New(rand.NewSource(int64(size) + 1)).Read(data)
+		}
+		t.files["big/data.bin"] = string(data)
+		t.files["big/empty.dat"] = ""
+		t.files["big/small.ecal"] = "k := 2\n"
+		t.bigFill = c20filler(size, kind, int64(size)+2)
+	}
 	for rel, content := range t.files {
 		p := filepath.Join(t.dir, filepath.FromSlash(rel))
 		if err := os.MkdirAll(filepath.Dir(p), 0o755); err != nil {
@@ -163,15 +224,27 @@ func c20mktree(root, name string, marker string) (*c20tree, error) {
 }
 
 func c20entry(t *c20tree, rc int) string {
-	return "import \"lib/a.ecal\" as a\nimport \"lib/deep/er/b.ecal\" as b\n" +
-		"verifc20.report(\"a.v\", a.v)\nverifc20.report(\"b.v\", b.v)\nverifc20.report(\"b.f\", b.f(3))\n" +
-		// empty, binary and absent files: whatever importing them does, it must be what it does
-		// when the same files are served from memory (reference run, c20reference)
-		"try {\n    import \"data/sub/empty.ecal\" as e1\n    verifc20.report(\"empty\", \"imported\")\n} except e {\n    verifc20.report(\"empty\", e.error)\n}\n" +
-		"try {\n    import \"data/blob.bin\" as e2\n    verifc20.report(\"blob\", \"imported\")\n} except e {\n    verifc20.report(\"blob\", e.error)\n}\n" +
-		"try {\n    import \"empty.txt\" as e3\n    verifc20.report(\"emptytxt\", \"imported\")\n} except e {\n    verifc20.report(\"emptytxt\", e.error)\n}\n" +
-		"try {\n    import \"lib/absent.ecal\" as e4\n    verifc20.report(\"absent\", \"imported\")\n} except e {\n    verifc20.report(\"absent\", e.error)\n}\n" +
-		fmt.Sprintf("a.k + b.k + 200 - %d\n", 200+t.ka+t.kb-rc)
+	head := "import \"lib/a.ecal\" as a\nimport \"lib/deep/er/b.ecal\" as b\n" +
+		"verifc20.report(\"a.v\", a.v)\nverifc20.report(\"b.v\", b.v)\nverifc20.report(\"b.f\", b.f(3))\n"
+	try := func(path, tag string) string {
+		return "try {\n    import \"" + path + "\" as x" + tag + "\n    verifc20.report(\"" + tag + "\", \"imported\")\n} except e {\n    verifc20.report(\"" + tag + "\", e.error)\n}\n"
+	}
+	// empty, binary and absent files: whatever importing them does, it must be what it does
+	// when the same files are served from memory (reference run, c20reference)
+	tries := try("data/sub/empty.ecal", "empty") + try("data/blob.bin", "blob") + try("empty.txt", "emptytxt") + try("lib/absent.ecal", "absent")
+	if t.big == 0 {
+		return head + tries + fmt.Sprintf("a.k + b.k + 200 - %d\n", 200+t.ka+t.kb-rc)
+	}
+	// big tree: the entry file itself has exactly t.big bytes; what decides the reports and the
+	// return code stands at its very end, behind a long raw string
+	head += "import \"big/mod.ecal\" as big\nverifc20.report(\"big.v\", big.v)\nverifc20.report(\"big.k\", big.k)\n" +
+		"import \"big/small.ecal\" as small\n" + tries + try("big/data.bin", "bigdata") + try("big/empty.dat", "bigempty") + "pad := r\""
+	tail := "\"\nverifc20.report(\"pad\", pad)\n" + fmt.Sprintf("a.k + b.k + big.k + small.k + 200 - %d\n", 200+t.ka+t.kb+5+2-rc)
+	n := t.big - len(head) - len(tail)
+	if n < 0 {
+		n = 0
+	}
+	return head + t.bigFill[:n] + tail
 }
 
 // c20reference runs the entry program directly, its imports served from memory with the
@@ -443,7 +516,7 @@ func c20zipEquals(z []byte, want map[string]string) bool {
 // ---- sweep ----------------------------------------------------------------------------
 
 func runC20(c *Ctx) error {
-	c.Rule = "source binaries described by (length, filler): all zeros / all '#' / all newlines / filler + a prefix of the marker (every prefix length) ending 0.. bytes before the end / the whole marker inside / short literal byte strings over {0,'\\n','#','E','P'}; lengths over two periods of the real buffer geometry (b1, b1+b2) and, with the buffer sizes set through the verif export, exhaustively over small geometries; two project trees (nested directories, empty and binary files, marker text in file names and contents); non-trivial = non-empty binary; distinct by (length, filler, geometry, tree)"
+	c.Rule = "source binaries described by (length, filler): all zeros / all '#' / all newlines / filler + a prefix of the marker (every prefix length) ending 0.. bytes before the end / the whole marker inside / short literal byte strings over {0,'\\n','#','E','P'}; lengths over two periods of the real buffer geometry (b1, b1+b2) and, with the buffer sizes set through the verif export, exhaustively over small geometries; project trees with nested directories, empty and binary files, marker text in file names and contents, and - trees big-<size>-<rep|rnd> - entry file, imported module and data file of 32767..300000 bytes (compressible and PRNG content; long values compared by SHA-256 on the Go side); non-trivial = non-empty binary; distinct by (length, filler, geometry, tree)"
 	// the marker as read from the implementation, once per cases file (MK), used by every case
 	mk0, _, _ := tool.VerifPackConstants()
 	c.BeginCases("From Ecal Require Import Common.Bytes Run.RunC20.\nDefinition MK : bytes := "+CoqBytes(mk0)+".", "case", c.Pick(250, 1500))
@@ -511,6 +584,28 @@ func runC20(c *Ctx) error {
 	add(c20case{Len: 0, Fill: "zeros", Tree: "tricky"})
 	add(c20case{Len: 40, Fill: "inside", At: 3})
 	add(c20case{Len: p1 + 5, Fill: "partial", Part: ml - 1}) // guard fails: binary ends with the marker minus its last byte
+
+	// project files larger than one decompression window (32 KiB), compressible and not:
+	// entry file, imported module and data file of exactly that size, next to empty files
+	bigSizes := []int{32767, 32768, 32769, 33000, 40000, 65536, 100000, 300000}
+	for i, size := range bigSizes {
+		for j, kind := range []string{"rep", "rnd"} {
+			if !c.Thorough() && (i+j)%2 != 0 && size != 32769 && size != 100000 {
+				continue
+			}
+			tree := fmt.Sprintf("big-%d-%s", size, kind)
+			add(c20case{Len: 1000 + i, Fill: "hash", Tree: tree})
+			if c.Thorough() || (i+j)%4 == 0 {
+				add(c20case{Len: p1 - 1, Fill: "zeros", Tree: tree})
+				add(c20case{Len: 0, Fill: "zeros", Tree: tree})
+			}
+			if c.Thorough() {
+				add(c20case{Len: p2 - ml, Fill: "hash", Tree: tree})
+				add(c20case{Len: 2*p2 + i, Fill: "nl", Tree: tree})
+				add(c20case{Len: 7 + j, Fill: "hash", B1: 5, B2: ml + 11, Tree: tree})
+			}
+		}
+	}
 
 	// the real geometry
 	maxLen := 2*p2 + 64
